@@ -134,7 +134,7 @@ func selfTestBenign(c *Ctx) []selfTestResult {
 		}
 	}
 	sort.Strings(ids)
-	ids = append(ids, "alpha-rename-all-locals")
+	ids = append(ids, "alpha-rename-all-locals", "alpha-rename-locals-and-unexported-functions")
 	self, err := os.Executable()
 	if err != nil {
 		return nil
@@ -288,7 +288,7 @@ func runOneBenign(c *Ctx, self, dir, id string) map[string]selfTestResult {
 	exec.Command("cp", "-r", filepath.Join(c.Verif, "tables"), verifCopy).Run()
 	exec.Command("cp", filepath.Join(c.Verif, "known_findings.json"), verifCopy).Run()
 	env := append(os.Environ(), "GOFLAGS=-mod=mod", "GOPROXY=off", "GOSUMDB=off", "GOTOOLCHAIN=local", "GOWORK=off", "ZNCHECK_NO_SELFTEST=1", "GOMAXPROCS=4")
-	if id == "alpha-rename-all-locals" {
+	if strings.HasPrefix(id, "alpha-rename-") {
 		tool := filepath.Join(c.Verif, "bin", "alpharename")
 		if _, err := os.Stat(tool); err != nil {
 			b := exec.Command("go", "build", "-o", tool, ".")
@@ -299,6 +299,9 @@ func runOneBenign(c *Ctx, self, dir, id string) map[string]selfTestResult {
 			}
 		}
 		args := []string{"-dir", repoCopy}
+		if strings.HasSuffix(id, "functions") {
+			args = append(args, "-funcs")
+		}
 		for _, r := range corePkgs {
 			args = append(args, "./"+r)
 		}
